@@ -8,5 +8,6 @@ CONSTANTS
   Outif <- OutifTextbook
   TIE = FALSE
   ORACLE = TRUE
+  BigCases <- BigNone
 INVARIANT OrthComplete
 CHECK_DEADLOCK FALSE
